@@ -561,9 +561,13 @@ pub fn miri_run(seed: u64, from: u64, to: u64, replay_file: Option<&str>) -> i32
             let rf: ReplayFile = serde_json::from_str(&s).expect("replay json");
             vec![(0, serde_json::from_value(rf.scenario).expect("scenario"))]
         }
-        None => (from..to).map(|i| (i, gen_thread("miri", seed, i))).collect(),
+        // every index runs one general reduced scenario and two high-contention ones
+        None => (from..to)
+            .flat_map(|i| vec![(i, gen_thread("miri", seed, i)), (i, gen_thread("race", seed, 2 * i)), (i, gen_thread("race", seed, 2 * i + 1))])
+            .collect(),
     };
     for (idx, sc) in scenarios {
+        let t0 = std::time::Instant::now();
         let want = match reference_with(&sc, false) {
             Ok(r) => r,
             Err(e) => {
@@ -584,10 +588,10 @@ pub fn miri_run(seed: u64, from: u64, to: u64, replay_file: Option<&str>) -> i32
         match compare(&sc, &want, &got, "concurrent-result-differs", "on the shared searcher with free-running threads") {
             Some(v) => {
                 bad += 1;
-                println!("MIRI-RUN idx={} MISMATCH class={} detail: {}", idx, v.class, v.detail);
+                println!("MIRI-RUN idx={} MISMATCH class={} detail: {} [{}]", idx, v.class, v.detail.replace('\n', " "), sc.origin);
                 println!("MIRI-SCENARIO {}", serde_json::to_string(&sc).unwrap());
             }
-            None => println!("MIRI-RUN idx={} ok threads={} ops={}", idx, sc.threads.len(), nops),
+            None => println!("MIRI-RUN idx={} ok threads={} ops={} [{}] {}ms", idx, sc.threads.len(), nops, sc.origin, t0.elapsed().as_millis()),
         }
     }
     if bad > 0 {
@@ -595,4 +599,30 @@ pub fn miri_run(seed: u64, from: u64, to: u64, replay_file: Option<&str>) -> i32
     } else {
         0
     }
+}
+
+/// Cost probe (used under Miri only while tuning the Miri scenario classes).
+pub fn build_bench() -> i32 {
+    use crate::scenario::{BuildOpts, Kind, MKind, Surface};
+    let pats: Vec<Vec<u8>> = vec![b"abab".to_vec(), b"bab".to_vec(), b"aabb".to_vec(), b"ba".to_vec()];
+    for (name, surface, kind, packed, prefilter, dd) in [
+        ("top-noncontig", Surface::Top, Kind::Noncontiguous, false, false, Some(0usize)),
+        ("top-noncontig-dense2", Surface::Top, Kind::Noncontiguous, false, false, None),
+        ("top-noncontig-prefilter", Surface::Top, Kind::Noncontiguous, false, true, Some(0)),
+        ("noncontig-direct", Surface::Noncontiguous, Kind::Auto, false, false, Some(0)),
+        ("top-contig", Surface::Top, Kind::Contiguous, false, false, Some(0)),
+        ("top-dfa", Surface::Top, Kind::Dfa, false, false, Some(0)),
+        ("top-auto", Surface::Top, Kind::Auto, false, false, None),
+        ("packed", Surface::Top, Kind::Auto, true, false, None),
+    ] {
+        let t0 = std::time::Instant::now();
+        let spec = SearcherSpec {
+            patterns: pats.clone(),
+            opts: BuildOpts { surface, kind, match_kind: MKind::LeftmostFirst, start_both: false, case_insensitive: false, dense_depth: dd, byte_classes: true, prefilter },
+            packed,
+        };
+        let t = build_tsut(&spec);
+        println!("BUILD {} ok={} {}ms", name, t.is_ok(), t0.elapsed().as_millis());
+    }
+    0
 }
